@@ -27,8 +27,8 @@ ASSUMPTIONS = ['Python equality (True == 1) is accepted',
                'timestamps: decoded instant within 1 s below/at the exact '
                'instant; instants >= 2106-02-07 exempt',
                'tables with a key longer than 128 characters exempt',
-               'falsy non-dict values for table arguments are the documented '
-               '"no value" path and are not generated',
+               'None as a table is the documented "no table" (== empty '
+               'table) and is exempt',
                'a decoder raising on encoder output is counted, not a '
                'violation of this property']
 
@@ -94,7 +94,7 @@ def cases(shard, rnd):
                 vs = list(pool) if t != 'table' else \
                     [x for x in hostile.hostile_tables(rnd)
                      if isinstance(x, dict)] + \
-                    [x for x in pool if x or isinstance(x, dict)]
+                    [x for x in pool if x is not None]
                 for v in vs:
                     yield {'t': 'method', 'index': idx, 'arg': n, 'v': v,
                            'base': gf.assignment(rnd, spec)}
@@ -109,7 +109,8 @@ def cases(shard, rnd):
         for n, t in refspec.PROPERTIES:
             vs = list(pool) if t != 'table' else \
                 [x for x in hostile.hostile_tables(rnd)
-                 if isinstance(x, dict)] + [x for x in pool if x]
+                 if isinstance(x, dict)] + [x for x in pool
+                                            if x is not None and x != '']
             for v in vs:
                 yield {'t': 'prop', 'name': n, 'v': v,
                        'base': gf.props_for_mask(rnd, rnd.getrandbits(13))}
@@ -213,6 +214,9 @@ def _prim(case, rec):
     from pamqp import decode, encode
     enc, dec, v = case['enc'], case['dec'], case['v']
     efn, dfn = getattr(encode, enc), getattr(decode, dec)
+    if enc == 'field_table' and v is None:
+        rec.count('exempt:None table is the empty table')
+        return
     e = call(efn, v)
     if not e.ok:
         rec.seen('encoder_raised', enc)
